@@ -1,16 +1,92 @@
-(* C07/Examples.v — non-vacuity: concrete runs of M_shape. *)
-From Coq Require Import List NArith ZArith Bool Arith.
+(* C07/Examples.v — non-vacuity: concrete tables meeting every hypothesis of
+   the theorems in Props.v, concrete runs, and witnesses showing that the
+   hypotheses (and the repairs) are needed. *)
+From Coq Require Import List NArith ZArith Bool Arith Permutation.
 From Common Require Import Outcome.
 From Gen Require Import Consts C07.
-From C07 Require Import Model.
+From C07 Require Import Model Shape Proofs_text Proofs_len Proofs_stack.
 Import ListNotations.
 Local Open Scope N_scope.
 
 Definition gl (g : N) (t : list N) : glyph := mkG g t 0 0 0.
+Definition nat0 := 0%nat. Definition nat1 := 1%nat. Definition nat2 := 2%nat.
 
 (* a ligature 1 2 -> 4 carries the text of both components *)
 Example ex_ligature :
-  M_shape [mkLookup 0 0%nat [Gsub4_1 [(1, 0%nat)] [[([2], 4)]]]] None [0%nat] []
+  M_shape [mkLookup 0 nat0 [Gsub4_1 [(1, nat0)] [[([2], 4)]]]] None [nat0] []
           [gl 1 [97]; gl 2 [98]; gl 3 [99]]
   = Ok ([gl 4 [97; 98]; gl 3 [99]], []).
 Proof. vm_compute. reflexivity. Qed.
+
+(* A lookup list with a contextual rule (ignoring marks) whose nested actions
+   run a ligature that swallows the marks the parent ignores, a multiple
+   substitution and a chained format-3 context; GDEF with marks 10, 11. *)
+Definition ex_gdef : option gdef := Some (mkGdef (Some [(10, 3); (11, 3)]) [] [[10]]).
+Definition ex_ll : list lookup :=
+  [ mkLookup 8 nat0 [SeqCtx1 [(1, nat0)] [[([], [(nat0, nat1); (nat0, nat2); (nat0, 3%nat)])]]];
+    mkLookup 0 nat0 [Gsub4_1 [(1, nat0)] [[([10; 10], 5)]]];
+    mkLookup 0 nat0 [Gsub2_1 [(5, nat0)] [[6; 7; 8]]];
+    mkLookup 0 nat0 [Chain3 [] [[6]; [7]] [[8]] [(nat1, 4%nat)]];
+    mkLookup 0 nat0 [Gsub1_1 [7] 100] ].
+Definition ex_seq : list glyph := [gl 1 [97]; gl 10 [98]; gl 10 [99]; gl 2 [100]].
+
+Example ex_hyp_shape : reader_shape ex_ll = true.
+Proof. vm_compute. reflexivity. Qed.
+Example ex_hyp_impl : implemented ex_ll = true.
+Proof. vm_compute. reflexivity. Qed.
+
+Example ex_run :
+  M_shape ex_ll ex_gdef [nat0] [] ex_seq
+  = Ok ([gl 6 [97; 98; 99]; gl 107 []; gl 8 []; gl 2 [100]], []).
+Proof. vm_compute. reflexivity. Qed.
+
+(* text_conserved and length_bound are not vacuous on it *)
+Example ex_runes : Permutation (runes [gl 6 [97; 98; 99]; gl 107 []; gl 8 []; gl 2 [100]]) (runes ex_seq).
+Proof. vm_compute. apply Permutation_refl. Qed.
+Example ex_K : ll_K ex_ll = 3%nat.
+Proof. vm_compute. reflexivity. Qed.
+
+(* a simple list for the stage-1 theorem *)
+Definition ex_simple : list lookup :=
+  [ mkLookup 0 nat0 [Gsub1_2 [(1, nat0); (2, nat1)] [3; 4]; Gsub3_1 [(5, nat0)] [[]]];
+    mkLookup 0 nat0 [Gpos2_1 [((3, 4), (Some (mkVR 10 0 (-20) 0 0 0 0 0), None))];
+                     Gpos4_1 [(10, nat0)] [(3, nat0)] [(7, (1, 1)%Z)] [[(5, 5)%Z]]] ].
+Example ex_hyp_simple : simple ex_simple = true /\ reader_shape ex_simple = true /\ implemented ex_simple = true.
+Proof. vm_compute. auto. Qed.
+
+(* the stack invariant is inhabited by a non-trivial stack *)
+Example ex_stack_ok :
+  stack_ok 10 3 [mkFrame [1; 2]%nat [] 3; mkFrame [0; 2; 4]%nat [(nat0, nat1)] 6; mkFrame [0]%nat [] 10].
+Proof. cbn. unfold frame_ok. cbn. repeat split; repeat constructor. Qed.
+
+(* ---- the hypotheses are needed ---- *)
+
+(* outside reader_shape (coverage index beyond the substitute array) the engine panics *)
+Example no_panic_needs_reader_shape_refuted :
+  exists ll s, reader_shape ll = false /\ implemented ll = true /\ M_shape ll None [nat0] [] s = Panic.
+Proof.
+  exists [mkLookup 0 nat0 [Gsub1_2 [(1, 5%nat)] [3]]], [gl 1 []]. vm_compute. auto.
+Qed.
+
+(* unimplemented positioning data (vertical advance) panics: panic("not implemented") *)
+Example no_panic_needs_implemented_refuted :
+  exists ll s, reader_shape ll = true /\ implemented ll = false /\ M_shape ll None [nat0] [] s = Panic.
+Proof.
+  exists [mkLookup 0 nat0 [Gpos1_1 [1] (Some (mkVR 0 0 0 7 0 0 0 0))]], [gl 1 []]. vm_compute. auto.
+Qed.
+
+(* the action budget: 70 nested actions, 63 are run (gid 1 + 63), and the
+   stack is empty afterwards *)
+Definition ex_budget_ll : list lookup :=
+  [ mkLookup 0 nat0 [SeqCtx1 [(1, nat0); (2, nat1)] [[([], repeat (nat0, nat1) 70)]; [([], [(nat0, nat1)])]]];
+    mkLookup 0 nat0 [Gsub1_1 (map N.of_nat (seq 0 100)) 1] ].
+Example ex_budget : M_shape ex_budget_ll None [nat0] [] [gl 1 [97]] = Ok ([gl 64 [97]], []).
+Proof. vm_compute. reflexivity. Qed.
+
+(* history independence needs the empty stack: on the stack the UNREPAIRED
+   engine left behind after that call (7 unconsumed actions) the next call
+   gives gid 10 instead of 3 - the defect 5.A-4 in the model *)
+Example stale_stack_changes_result :
+  exists k, M_shape ex_budget_ll None [nat0] k [gl 2 [97]] = Ok ([gl 10 [97]], [])
+         /\ M_shape ex_budget_ll None [nat0] [] [gl 2 [97]] = Ok ([gl 3 [97]], []).
+Proof. exists [mkFrame [nat0] (repeat (nat0, nat1) 7) nat1]. vm_compute. auto. Qed.
